@@ -55,8 +55,17 @@ def function_stage(ck, n, n_malformed):
                 continue
             ck.count("wwriter_" + w[0] + (":" + w[1].split(":")[0] if w[0] != "ok" else ""))
             if w[0] == "ok":
-                reqs += ["wwrite " + w[1] + " " + w[2], "wspec " + w[1] + " " + w[2], "wloop " + w[1]]
-                owners += [(c, "write"), (c, "spec"), (c, "loop")]
+                reqs += ["wwrite " + w[1] + " " + w[2], "wspec " + w[1] + " " + w[2], "wloop " + w[1], "wdomain " + w[1]]
+                owners += [(c, "write"), (c, "spec"), (c, "loop"), (c, "domain")]
+                rr = c.get("reread")
+                if rr is not None:
+                    ck.count("wreread_" + rr[0] + (":" + rr[1].split(":")[0] if rr[0] != "ok" else ""))
+                    if rr[0] == "ok":
+                        reqs.append("wnorm " + w[1] + " " + rr[1])
+                        owners.append((c, "norm"))
+                    elif rr[0] == "err":
+                        reqs.append(f"wnormerr {rr[1]} " + w[1])
+                        owners.append((c, "norm"))
                 if not c["perturbed"]:
                     from ethosu.vela import tflite_writer as tw
 
@@ -70,6 +79,8 @@ def function_stage(ck, n, n_malformed):
     for (c, what), a, rq in zip(owners, ans, reqs):
         by_case.setdefault(id(c), {})[what] = (a, rq)
         ck.count(f"w_{what}_" + a.split(" ")[0])
+        if what == "domain" and a.startswith("out "):
+            ck.count("w_domain_out_" + a.split(" ")[1])       # which clause of Spec.conformsDomainB the description leaves
     disagreements = 0
     budget = {}            # at most 4 reports per (stream, failing input found?) so that no stream crowds out the others
 
@@ -107,6 +118,13 @@ def function_stage(ck, n, n_malformed):
             if a.startswith("differ") or a.startswith("err:rewrite"):
                 report("loop", f"read_write_roundtrip fails on the models: write (read (write d)) is not write d for a generated description: "
                        f"{a[:200]} (case {c['idx']})", dict(_replay(c), answer=a, request=res["loop"][1][:4000]), False)
+        # read_write_roundtrip end to end: the real reader on the real writer's file against Spec.normalise of the description
+        if "norm" in res and not res["norm"][0].startswith("same") and not res["norm"][0].startswith("outside "):
+            a, rq = res["norm"]
+            wrote_same = "write" in res and res["write"][0].startswith("same")
+            report("norm", f"the real reader on the file the real writer produced does not build Spec.normalise of the written graph: {a[:200]} "
+                   f"(case {c['idx']}; writer model vs code: {res.get('write', ('?',))[0][:60]})",
+                   dict(_replay(c), answer=a, request=rq[:4000]), False)
         # the Spec alone (model and code agree, or the model has no opinion)
         for s in ("readspec", "spec", "meta"):
             if s in res and not res[s][0].startswith("ok") and s not in covered:
